@@ -956,8 +956,11 @@ fn exec_step(env: &Env, dir: &Path, parent: Option<&StateData>, lit: &LitStep, s
     let mut rewrote_mutable = false;
     if let (Some(b), Some(old_head)) = (&before, parent.and_then(|p| p.head.clone())) {
         let v0 = &b.ops[&old_head].view;
-        let imm0 = b.immutable_by_definition(v0, lit.config);
         let visible0 = b.ancestors(v0.head_ids.iter().cloned());
+        // only commits that are visible before the command can be rewritten / hidden by it (after an
+        // explicit --ignore-immutable rewrite, remote bookmarks keep pointing at hidden commits)
+        let imm0: BTreeSet<CommitId> =
+            b.immutable_by_definition(v0, lit.config).into_iter().filter(|c| visible0.contains(c)).collect();
         // was the command aimed at an immutable commit?
         for a in &lit.args {
             if let Some(id) = CommitId::try_from_hex(a)
@@ -1112,11 +1115,16 @@ fn cross_check_immutable(env: &Env, st: &StateData, config: usize, stats: &Stats
         vcommon::machinery_failure("jj log -r 'immutable()' failed");
     }
     stats.immutable_revset_cross_checks.fetch_add(1, Ordering::Relaxed);
-    let jj_set: BTreeSet<String> = text.lines().map(|l| l.trim().to_string()).filter(|l| !l.is_empty()).collect();
     let ins = inspect(&st.dir.join("d/.jj/repo"));
     let head = st.head.clone()?;
     let view = &ins.ops.get(&head)?.view;
     let visible = ins.ancestors(view.head_ids.iter().cloned());
+    // both sides restricted to visible commits (a remote bookmark may point at a hidden commit)
+    let jj_set: BTreeSet<String> = text
+        .lines()
+        .map(|l| l.trim().to_string())
+        .filter(|l| !l.is_empty() && CommitId::try_from_hex(l).is_some_and(|c| visible.contains(&c)))
+        .collect();
     let ref_set: BTreeSet<String> =
         ins.immutable_by_definition(view, config).into_iter().filter(|c| visible.contains(c)).map(|c| c.hex()).collect();
     if jj_set != ref_set {
